@@ -11,6 +11,7 @@ GEN_MODULES = ['Quota']
 REQUIRED = ['getNBest_tie', 'getNBest_fits', 'getNBest_everyone', 'getNBest_length', 'aboveSorted_desc',
             'mem_aboveSorted', 'strictly_above_elected', 'level_all_elected', 'not_above_not_elected_in_tie',
             'below_never_elected', 'getNBest_strictMono_map', 'plurality_eq', 'quotaSelector_ok']
+NAME_MODES = ['str', 'int0', 'empty0']
 REQUIRED_COUNTERS = ['sorted_votes', 'boundary_tie', 'level_fits', 'negative_value', 'all_elected', 'fraction', 'decimal', 'quota_selector']
 RULE = ('1-8 candidates, values from tie-forcing small sets (incl. negatives/zero), Fractions, Decimals and integers up to '
         '10^30; n from 1 to len+2; ops get_n_best, plurality, quota_selector(select/error). Non-trivial = at least two '
